@@ -27,7 +27,8 @@ Comp(k, c) == [kind |-> k, class |-> c]
 Comps == {Comp("H", c) : c \in HalfClasses} \cup {Comp("Q", c) : c \in QuarterClasses}
 EndsInLetter(c) == c \in {"WORD", "WORDONE", "BAREQ"}
 \* an empty joiner must not glue a word to the next component's letters
-GlueOK(a, j, b) == j # "NONE" \/ ~EndsInLetter(a.class) \/ (a.class = "BAREQ" /\ b.class = "BAREQ")
+\* (a bare quarter may be followed directly by another bare quarter or by a clean symbol: 'E½NENW', 'N½NEW½')
+GlueOK(a, j, b) == j # "NONE" \/ ~EndsInLetter(a.class) \/ (a.class = "BAREQ" /\ b.class \in {"BAREQ", "SYM"})
 
 RECURSIVE AfterHalf(_, _)
 \* component i is a bare quarter reached from a half through bare quarters only
